@@ -115,6 +115,8 @@ class Model:
                 self.lfs[lf].nf_data[k] = (self.lfs[lf].nf_data[k][0], op['v'])
         elif o == 'set_prop':
             self.objs[op['h']].props_later.append((op['prop'], op['v'], step))
+        elif o == 'set_fh':
+            self.lfs[op['lf']].kwargs[{'sequence_number': 'fh_sequence_number', 'header_id': 'fh_id'}[op['prop']]] = op['v']
         elif o == 'set_sul':
             key = {'sequence_number': 'sul_sequence_number'}.get(op['prop'], op['prop'])
             self.files[op['fid']].kwargs[key] = op['v']
